@@ -464,6 +464,20 @@ func runHarness(spec *Spec, h *Harness, tier string, workers int, verbose bool, 
 		}
 		in := interp.New(prog, sol, c)
 		in.Explore(entry, pre)
+		if os.Getenv("VERIF_PROFILE") != "" {
+			type kv struct {
+				k string
+				v int
+			}
+			var l []kv
+			for f, n := range in.StepProf {
+				l = append(l, kv{f.String(), n})
+			}
+			sort.Slice(l, func(i, j int) bool { return l[i].v > l[j].v })
+			for i := 0; i < len(l) && i < 15; i++ {
+				fmt.Fprintf(os.Stderr, "PROFILE %10d %s\n", l[i].v, l[i].k)
+			}
+		}
 		r := &jobResult{st: in.St, fails: in.Failures, prefixes: in.Prefixes, samples: in.Samples, doneVecs: in.DoneVectors,
 			queries: sol.Queries, nsat: sol.NSat, nunsat: sol.NUnsat, nunk: sol.NUnk, nerr: sol.Errors, soltime: sol.Time,
 			funcs: in.St.Funcs, terms: in.Terms().NumTerms(), lastErr: sol.LastErr}
